@@ -1319,7 +1319,15 @@ class C17(Property):
         "plain evaluation: Missing is greater than everything incl. itself for < > <= >=, Missing == None, None cells never satisfy an order comparison",
         "where the plain evaluation itself raises (operands of different kinds under an order comparison) nothing is demanded",
     ]
-    partial_theorems = {}
+    partial_theorems = {
+        "where_eq_spec_partial": "needs whereWF: rows in index order (P13 insert-after-index, recorded), probes comparable with an indexed column and not None/Missing-under-order "
+                                 "(recorded), and - only for a tree without the proposed repairs - no repeated `in` probes (P8), no {'!in':..} (P9), no plain argument after a dict "
+                                 "argument (P10), no Missing under <=/>= on the scan path (P11), no empty indexed table (P12); `match` not covered; each conjunct has a _counterexample",
+        "index_spec_partial": "needs indexWF: distinct index columns (P14 without the repair), different from the current _indexes (P13: index() returns at once), comparable non-None cells; "
+                              "the permutation holds up to == in index columns (1 and 1.0 may swap inside a group)",
+        "groupby_partition": "needs rows in index order (Indexed), i.e. not after insert-after-index (P13)",
+        "where_of_where": "as where_eq_spec_partial, with the sortedness part discharged by index_establishes_order / the theorem itself",
+    }
 
     def generate(self, rng, tier):
         return Gen(rng).case()
@@ -1455,7 +1463,7 @@ class C17(Property):
                     break
             if len(model) != len(run.obs):
                 fails.append(F("A", "model answered %d observations for %d" % (len(model), len(run.obs)), "A:length"))
-            # (C) the theorem at run time: where the hypotheses of where_eq_spec hold and the plain evaluation is defined,
+            # (C) the theorem at run time: where the hypotheses of where_eq_spec_partial hold and the plain evaluation is defined,
             # the model's result is the specification's
             for k, sp in enumerate(ans.get("spec", [])):
                 if not sp:
@@ -1463,7 +1471,7 @@ class C17(Property):
                 if "perm" in sp:
                     tags.append("C:index-hyp-" + ("holds" if sp["hyp"] else "fails"))
                     if sp["hyp"] and not (sp["perm"] and sp["sorted"]):
-                        fails.append(F("C", "op #%d: hypotheses of index_spec hold but the model's rows are %s" % (k, "not a rearrangement" if not sp["perm"] else "not in index order"), "C:index_spec"))
+                        fails.append(F("C", "op #%d: hypotheses of index_spec_partial hold but the model's rows are %s" % (k, "not a rearrangement" if not sp["perm"] else "not in index order"), "C:index_spec"))
                     continue
                 tags.append("C:where-hyp-" + ("holds" if sp["hyp"] else "fails"))
                 m = model[k + 1]
@@ -1479,7 +1487,7 @@ class C17(Property):
                 if sp["hyp"] and isinstance(sp["spec"], list):
                     tags.append("C:where-checked")
                     if m.get("rows") != sp["spec"]:
-                        fails.append(F("C", "op #%d: hypotheses of where_eq_spec hold but the model returns %s and whereS %s" % (k, json.dumps(m)[:300], json.dumps(sp["spec"])[:300]), "C:where_eq_spec"))
+                        fails.append(F("C", "op #%d: hypotheses of where_eq_spec_partial hold but the model returns %s and whereS %s" % (k, json.dumps(m)[:300], json.dumps(sp["spec"])[:300]), "C:where_eq_spec"))
         return {"fails": fails, "nontrivial": run.nontrivial, "tags": tags, "impl": run.obs, "model": model}
 
     def shrink(self, case):
